@@ -16,7 +16,13 @@
  * An empty side is `.`.
  *
  * Operations
- *   new <n> <func|fd|both|none> <late|early>
+ *   new <n> <func|fd|both|none> <late|early> [<fdm> <fdr>]
+ *        fdm, fdr: the descriptor NUMBERS at which the write ends of the two pipes are installed (dup2) before they are
+ *               given to the library as output descriptors of `main` and of `ref` (fd/both only; fdm != fdr).  Any
+ *               number is legitimate for an output descriptor, 0 included (TICKIT_OPEN_STDTTY itself picks 0 when stdin
+ *               is the tty).  Whatever was open at that number (the harness's own stdin/stdout, its result pipe) is
+ *               moved out of the way and put back when the history ends.  Without the two numbers the descriptors are
+ *               the ones pipe(2) returned.
  *        late : tickit_term_build() with the output method and .output_buffersize = n (buffer installed after
  *               the driver has started)
  *        early: tickit_term_build() without output; tickit_term_set_output_buffer(n); then the output method
@@ -43,6 +49,7 @@ struct Chunk { char dest; int isnull; size_t len; unsigned char *bytes; };
 struct Side {
   TickitTerm *tt;
   int rfd, wfd;           /* pipe, -1 if unused */
+  int placed, saved;      /* wfd was installed at a requested number; what was open there before (-1: nothing) */
   int use_func, use_fd;
   struct Chunk *chunks;
   size_t n, cap;
@@ -89,9 +96,32 @@ static void side_init(struct Side *s)
 {
   memset(s, 0, sizeof *s);
   s->rfd = s->wfd = -1;
+  s->saved = -1;
 }
 
-static void side_open(struct Side *s, size_t n, const char *how, int early)
+#define H_FD_PARK 600   /* descriptors the harness moves out of the way live at and above this number */
+
+/* install descriptor `fd` at number `want`; returns `want` */
+static int place_fd(struct Side *s, int fd, int want)
+{
+  if(fd == want) return fd;
+  if(want == h_outfd) {
+    /* the pipe on which observations travel to the parent sits there: move it for good */
+    int moved = fcntl(h_outfd, F_DUPFD, H_FD_PARK);
+    if(moved < 0) _exit(95);
+    h_outfd = moved;
+  }
+  else if(fcntl(want, F_GETFD) != -1) {
+    s->saved = fcntl(want, F_DUPFD, H_FD_PARK);
+    if(s->saved < 0) _exit(95);
+  }
+  if(dup2(fd, want) != want) _exit(94);
+  close(fd);
+  s->placed = 1;
+  return want;
+}
+
+static void side_open(struct Side *s, size_t n, const char *how, int early, int want)
 {
   s->use_func = !strcmp(how, "func") || !strcmp(how, "both");
   s->use_fd   = !strcmp(how, "fd")   || !strcmp(how, "both");
@@ -103,6 +133,13 @@ static void side_open(struct Side *s, size_t n, const char *how, int early)
     /* the pipe is drained only after each operation: make it hold the largest single operation the generator
      * produces (buffers above PIPE_BUF and writes of several buffers), else write(2) would block for ever */
     if(fcntl(p[1], F_SETPIPE_SZ, H_PIPE_CAPACITY) < H_PIPE_CAPACITY) _exit(96);
+    /* keep the read end away from the small numbers the write ends may be asked to take */
+    if(want >= 0) {
+      int hi = fcntl(p[0], F_DUPFD, H_FD_PARK);
+      if(hi < 0) _exit(95);
+      close(p[0]); p[0] = hi;
+      p[1] = place_fd(s, p[1], want);
+    }
     s->rfd = p[0]; s->wfd = p[1];
   }
   if(!early) {
@@ -181,7 +218,12 @@ static void engine_end(void)
   side_close(&side_main); side_close(&side_ref);
   for(int k = 0; k < 2; k++) {
     struct Side *s = k ? &side_ref : &side_main;
-    if(s->rfd != -1) { close(s->rfd); close(s->wfd); s->rfd = s->wfd = -1; }
+    if(s->rfd != -1) {
+      close(s->rfd);
+      if(s->placed && s->saved != -1) { dup2(s->saved, s->wfd); close(s->saved); }
+      else close(s->wfd);
+      s->rfd = s->wfd = s->saved = -1; s->placed = 0;
+    }
     free(s->chunks); s->chunks = NULL;
   }
 }
@@ -192,13 +234,18 @@ static void engine_op(int argc, char **argv)
 {
   const char *op = argc ? argv[0] : "";
   if(!strcmp(op, "new")) {
-    if(argc != 4 || alive) { obs("bad-op"); return; }
+    if((argc != 4 && argc != 6) || alive) { obs("bad-op"); return; }
     long n = atol(argv[1]);
     int early = !strcmp(argv[3], "early");
     if(n < 0 || (strcmp(argv[2], "func") && strcmp(argv[2], "fd") && strcmp(argv[2], "both") && strcmp(argv[2], "none"))
        || (!early && strcmp(argv[3], "late"))) { obs("bad-op"); return; }
-    side_open(&side_main, n, argv[2], early);
-    side_open(&side_ref, 0, argv[2], early);
+    int fdm = -1, fdr = -1;
+    if(argc == 6) {
+      fdm = atoi(argv[4]); fdr = atoi(argv[5]);
+      if(fdm < 0 || fdr < 0 || fdm == fdr || fdm >= H_FD_PARK || fdr >= H_FD_PARK) { obs("bad-op"); return; }
+    }
+    side_open(&side_main, n, argv[2], early, fdm);
+    side_open(&side_ref, 0, argv[2], early, fdr);
     alive = 1;
     report();
     return;
